@@ -26,6 +26,9 @@ Must == [ none            |-> "accept",
           key_tag_cons    |-> "either",    \* outer OCTET/BIT STRING with the "constructed" bit (BER, not DER)
           inner_len       |-> "reject",    \* (private) inner length 31 with 31 bytes, all lengths consistent
           key_short       |-> "reject",    \* 31 key bytes, all lengths consistent
+          key_empty       |-> "reject",    \* the key container (OCTET / BIT STRING) with no content at all, lengths consistent
+          key_one         |-> "reject",    \* ... with one byte of content
+          key_hdr_only    |-> "reject",    \* ... with two bytes of content (private: the inner header and no key)
           key_long        |-> "reject",    \* 33 key bytes, all lengths consistent
           outer_len_plus  |-> "reject",    \* outer length one more than the content (data missing)
           outer_len_minus |-> "reject",    \* outer length one less than the content (last element cut)
